@@ -19,7 +19,7 @@ INFO = {
     'rule': 'one case = one event history; non-trivial = a success reply with at least one new value reached a dependent',
     'functions': ['pl.worker.Context.run', 'base.Task.do', 'base._Metric.measure', 'pl.version.record', 'db.shelve.connect/update/next/targets', 'db.shelve.model.Interface._load/_update/_update_msv', 'db.util.encode/move', 'pl.farm.Hand._res', 'pl.schedule.complete', 'pl.schedule.update', 'pl.schedule.organize', 'pl.schedule._priors', 'util.refs.as_vref/vref_as_name', 'pl.schedule.next_job_batch', 'pl.farm.dispatch'],
     'bounds': {
-        'quick': 'end-to-end: chain of 3, fork with value-level references, diamond; 2 targets; histories of <=6 events (root re-run on T1/T2, complete oldest/second/newest unit) then drain; step clause: shapes G2,G3,G4,G5,G7,G8,G10 (value-level references: b needs a.v0, c needs a.v1),G12 (state-vector references); targets T1,T2; histories of <=4 events; every subset of new values per reply',
+        'quick': 'end-to-end: chain of 3, fork with value-level references, diamond; 2 targets; histories of <=6 events (root re-run on T1/T2, complete oldest/second/newest unit) then drain (thorough: <=7 events); step clause: shapes G2,G3,G4,G5,G7,G8,G10 (value-level references: b needs a.v0, c needs a.v1),G12 (state-vector references); targets T1,T2; histories of <=4 events; every subset of new values per reply',
         'thorough': 'same shapes + G6,G9,G11; histories of <=5 events',
     },
     'assumptions': ['SchedWorld fakes (see C01); a reply carries one novelty bit per output value of the algorithm', 'promotion disabled (default)'],
@@ -40,7 +40,7 @@ def obligations(tier):
     from vp import ob
 
     out = sched.make_obligations('C02', 'c02', tier, QUICK, THOROUGH, {s: 4 for s in QUICK}, {s: 5 for s in THOROUGH})
-    k = 6 if tier == 'quick' else 8
+    k = 6 if tier == 'quick' else 7
     for shape in ('chain3', 'fork', 'diamond'):
         free = [f'e{i}' for i in range(2, k)]
         for a in range(2):
